@@ -124,6 +124,30 @@ func selfLoopThenEndCases() []*scen.Scenario {
 	return out
 }
 
+// startlessBranchCases: a flow that has no start node sits on a branch that is not taken (or is the target of a pair
+// that is re-connected before the run): it is never entered, so it has no say in the run.
+func startlessBranchCases() []*scen.Scenario {
+	var out []*scen.Scenario
+	for kind := 0; kind < scen.NumScriptedKinds; kind++ {
+		for depth := 0; depth <= 2; depth++ {
+			nodes := []scen.NodeSpec{
+				{Kind: kind, N: 1, Visits: []scen.Visit{{FirstOK: 1, Post: "ok"}, {FirstOK: 1, Post: "ok"}}},
+				{Kind: scen.KPlain, N: 1, Visits: []scen.Visit{{FirstOK: 1, Post: "fin"}, {FirstOK: 1, Post: "fin"}}},
+				{Kind: scen.KFlow, N: 1, Flow: &scen.FlowSpec{Start: -1}}, // start-less
+			}
+			fs := &scen.FlowSpec{Start: 0, Conns: []scen.Conn{{From: 0, Action: "ok", To: 1}, {From: 0, Action: "failed", To: 2}, {From: 1, Action: "other", To: 2}}}
+			nodes = append(nodes, scen.NodeSpec{Kind: scen.KFlow, N: 1, Flow: fs})
+			root := 3
+			for d := 0; d < depth; d++ {
+				nodes = append(nodes, scen.NodeSpec{Kind: scen.KFlow, N: 1, Flow: &scen.FlowSpec{Start: root}})
+				root = len(nodes) - 1
+			}
+			out = append(out, &scen.Scenario{Nodes: nodes, Root: root, Runs: 2, UseFlowRun: depth%2 == 0})
+		}
+	}
+	return out
+}
+
 // cancelInLastAttemptCases: the context is cancelled inside the LAST permitted exec attempt, which fails; with a
 // fallback installed the fallback is still owed (C02), without one the run ends with that attempt's error (C04).
 func cancelInLastAttemptCases(withFB bool) []*scen.Scenario {
